@@ -204,7 +204,7 @@ class Ev:
                 elif isinstance(x, Slice): tot = tot + x.len()
                 else: raise Inconclusive("len of %r" % (recv,))
             return [(P, tot)]
-        if name == "min" and path == "core::cmp::Ord::min":
+        if name == "min" and path in ("core::cmp::Ord::min", "core::cmp::min"):
             a, b = args; outs = []
             for cond, v in ((Cond("<=", a - b), a), (Cond(">", a - b), b)):
                 d = decide(P.conds, cond)
